@@ -38,6 +38,10 @@ class IntroduceFactory:
         files in the project are searched.
 
         """
+        if not factory_name.isidentifier():
+            raise exceptions.RefactoringError(
+                "Invalid factory name: '%s' is not a Python identifier." % factory_name
+            )
         if resources is None:
             resources = self.project.get_python_files()
         changes = ChangeSet("Introduce factory method <%s>" % factory_name)
